@@ -609,6 +609,44 @@ class Node:
         )
 
 
+class MemoryFile:
+    """
+    File object of :py:class:`aioftp.MemoryPathIO`: own position over the
+    content shared by every handle of the same file.
+    """
+
+    def __init__(self, content, *, append=False):
+        self.content = content
+        self.append = append
+        self.position = 0
+
+    def seek(self, offset, whence=io.SEEK_SET):
+        self.content.seek(self.position)
+        self.position = self.content.seek(offset, whence)
+        return self.position
+
+    def tell(self):
+        return self.position
+
+    def read(self, size=-1):
+        self.content.seek(self.position)
+        data = self.content.read(size)
+        self.position = self.content.tell()
+        return data
+
+    def write(self, data):
+        if self.append:
+            self.content.seek(0, io.SEEK_END)
+        else:
+            self.content.seek(self.position)
+        count = self.content.write(data)
+        self.position = self.content.tell()
+        return count
+
+    def close(self):
+        pass
+
+
 class MemoryPathIO(AbstractPathIO):
     """
     Non-blocking path io. Based on in-memory tree. It is just proof of concept
@@ -808,7 +846,7 @@ class MemoryPathIO(AbstractPathIO):
                     file_like.seek(0, io.SEEK_SET)
         else:
             raise ValueError(f"invalid mode: {mode}")
-        return file_like
+        return MemoryFile(file_like, append=mode == "ab")
 
     @universal_exception
     @defend_file_methods
